@@ -7,6 +7,7 @@ package main
 
 import (
 	"fmt"
+	"io"
 	"slices"
 	"sort"
 	"strings"
@@ -322,15 +323,18 @@ func (s *c10Session) c10Outcomes() string {
 	return fmt.Sprintf("%d|%s", s.stopRound, strings.Join(parts, "&"))
 }
 
-const c10SeedBytes = 32
-
 // c10CtxOut renders what one context exposes: "id;sid;extract;peer=seed&peer=seed"
-// (extract: 32 bytes from a clone of the transcript; seed: the first 32 bytes read from each
-// pairwise seed reader).
-func c10CtxOut(ctx *session.Context) string {
+// (extract: prm.extLen bytes under prm.extLabel from a clone of the transcript, after appending
+// (prm.appLabel, prm.appMsg) to the clone if set; seed: the first prm.seedLen bytes read from each
+// pairwise seed reader, in two Read calls).
+func c10CtxOut(ctx *session.Context, prm c10Params) string {
 	id := ctx.HolderID()
 	sid := ctx.SessionID()
-	ext, err := ctx.Transcript().Clone().ExtractBytes("C10-extract", 32)
+	tape := ctx.Transcript().Clone()
+	if prm.appLabel != nil {
+		tape.AppendBytes(string(prm.appLabel), prm.appMsg)
+	}
+	ext, err := tape.ExtractBytes(string(prm.extLabel), uint(prm.extLen))
 	if err != nil {
 		ext = nil
 	}
@@ -342,8 +346,10 @@ func c10CtxOut(ctx *session.Context) string {
 	sort.Slice(peers, func(a, b int) bool { return peers[a] < peers[b] })
 	ps := make([]string, len(peers))
 	for i, k := range peers {
-		buf := make([]byte, c10SeedBytes)
-		if _, err := seeds[k].Read(buf); err != nil {
+		buf := make([]byte, prm.seedLen)
+		if _, err := io.ReadFull(seeds[k], buf[:prm.seedSplit]); err != nil {
+			buf = nil
+		} else if _, err := io.ReadFull(seeds[k], buf[prm.seedSplit:]); err != nil {
 			buf = nil
 		}
 		ps[i] = fmt.Sprintf("%x=%s", uint64(k), hexBytes(buf))
